@@ -59,7 +59,7 @@ def run_case(ctx, case):
 
 
 BOUNDS = {"quick": dict(examples=500, units=16), "thorough": dict(examples=6000, units=16)}
-PROFILE = dict(grammar.PROFILES["data"], post_copy=True)
+PROFILE = dict(grammar.PROFILES["data"], post_copy=True, class_dnc=True)
 
 
 def units(tier, seed):
